@@ -117,6 +117,13 @@ def r2_policy_table(R, sh: SolverShape) -> None:
         return
     nf = nf_cur[0]
     conv, _ = sh.convergence_node()
+    # the policy applies at the first pass that leaves non-finite values behind, whatever min_iter: no fact about min_iter
+    # stands between the evaluation and the non-finite test
+    for nfn in nf_cur:
+        gated = [(a_, tr_, tn_) for (a_, tr_, tn_) in guard_atoms(sh, nfn.id) if sh.in_loop(tn_) and any(isinstance(x, ast.Name) and x.id == 'min_iter' for x in ast.walk(a_))]
+        R.check(not gated, sh.q, 'policy-not-gated-by-min-iter', 'the error policy is reached on every pass, forced (below min_iter) or not',
+                f'`{text(nfn.ast)[:50]}` is reached only when `{text(gated[0][0])[:40]}` is {gated[0][1]}: a pass below min_iter that produces non-finite values '
+                f'bypasses the errors= policy (no raise / skip / replace)' if gated else '', where=sh.where(nfn))
     # The policy table is decided path-sensitively: the exploration is split by the value of `errors`
     # (raise / skip / ignore / replace / anything else), so it does not matter whether the rows are an if/elif ladder,
     # guard clauses, or share code.  For each value: the part of the product graph entered through the true edge of
@@ -192,16 +199,27 @@ def r2_policy_table(R, sh: SolverShape) -> None:
             R.check(noraise, sh.q, 'policy:skip:no-exception', "errors='skip': no exception before the bookkeeping", "errors='skip' row can raise before recording status",
                     where=sh.where(nf))
         elif m in ('ignore', 'replace'):
-            ok = all(enum_value_ref(d.ast.value) == 'FAILED' for d in sdefs) and len(sdefs) >= 1
-            R.check(ok, sh.q, f'policy:{m}:status', f"errors='{m}': only 'F' may be assigned", f"errors='{m}' row assigns a status other than FAILED", where=sh.where(nf))
+            # what the period ends up with when this was the last pass: follow the row on (next loop header, loop exhausted,
+            # code after the loop) without another evaluation, and read the values the final status store can receive
+            from fsa.pathsens import TOP, UNDEF
+            last_pass = fl.reach(st0, avoid_nodes=[sh.n_eval.id])
+            finals = set()
+            for p_ in last_pass:
+                if p_[0] == fs_status.id:
+                    for tok in fl.vals(fs_status.ast.value, p_[1]):
+                        finals.add(sh.status_member(tok) if tok not in (TOP, UNDEF) else '?')
+            ok = all(enum_value_ref(d.ast.value) == 'FAILED' for d in sdefs) and finals == {'FAILED'}
+            R.check(ok, sh.q, f'policy:{m}:status', f"errors='{m}': a period whose last pass is non-finite ends as 'F'",
+                    f"errors='{m}' row: a period whose last pass is non-finite can end with status {sorted(str(x) for x in finals)} (row assigns "
+                    f"{[enum_value_ref(d.ast.value) for d in sdefs]}), not only FAILED", where=sh.where(nf))
             for b_ in breaks:
                 only_last = b_.id not in nodes(fl.reach(st0, avoid_nodes=[sh.loop.id], skip_edges=lastpass_edges))
                 R.check(only_last and bool(lastpass_edges), sh.q, f'policy:{m}:break-only-last-pass', f"errors='{m}': the loop is left only on the last pass",
                         f"errors='{m}' row leaves the loop on a pass that is not `{sh.counter} == max_iter`", where=sh.where(b_))
                 via = b_.id not in nodes(fl.reach(st0, avoid_nodes=[sh.loop.id] + [d.id for d in sdefs]))
                 R.check(via, sh.q, f'policy:{m}:break-sets-F', f"errors='{m}': leaving the loop sets 'F'", f"errors='{m}' row can break without setting FAILED", where=sh.where(b_))
-            R.check(continues and bool(breaks), sh.q, f'policy:{m}:continues', f"errors='{m}': keeps iterating until the last pass",
-                    f"errors='{m}' row never continues to the next pass or never fails on the last", where=sh.where(nf))
+            R.check(continues, sh.q, f'policy:{m}:continues', f"errors='{m}': keeps iterating until the last pass",
+                    f"errors='{m}' row never continues to the next pass", where=sh.where(nf))
             # what happens to the non-finite values: 'ignore' leaves them, 'replace' zeroes exactly them before the next pass
             cur_stores = []
             for i in N:
@@ -322,6 +340,12 @@ def r4_exception_discipline(R, sh: SolverShape) -> None:
                 and isinstance(rs[0].cause, ast.Name) and rs[0].cause.id == h.name
             R.check(ok, sh.q, f'hook-wrap:{m}', f'self.{m}(): any exception surfaces as SolutionError chained to the original',
                     f'handler of self.{m}() does not end in `raise SolutionError(...) from {h.name}`', where=sh.where(n))
+            # no handler in front of the wrapping one lets an exception through unwrapped (and unrecorded)
+            for o in tr.handlers[:tr.handlers.index(h)]:
+                if any(isinstance(x, ast.Raise) for x in ast.walk(o)):
+                    R.violation(sh.q, f'hook-intercept:{m}:{text(o.type) if o.type else "bare"}',
+                                f'`except {text(o.type) if o.type else ""}` in front of the wrapping handler of self.{m}(): such an exception leaves solve_t() as it is, '
+                                f"not wrapped in (and chained from) a SolutionError naming the period, and without the 'E' bookkeeping", where=sh.where(n))
             # no other handler swallows
             others = [x for x in tr.handlers if x is not h]
             for o in others:
